@@ -65,7 +65,9 @@ let rec p_expr () : expr =
   | "Z" -> let a = p_expr () in
            let part () = match next () with "-" -> ENone | _ -> p_expr () in
            let lo = part () in let hi = part () in let st = part () in
-           EOp (OGetItem, [a; EOp (oseq "slice", [lo; hi; st])])
+           (* a[lo:hi] is a SliceIndexNode, a[lo:hi:step] an IndexNode with a SliceNode index *)
+           if st = ENone then EOp (OGetSlice, [a; lo; hi])
+           else EOp (OGetItem, [a; EOp (oseq "slice", [lo; hi; st])])
   | "T" -> let nm = next () in let a = p_expr () in EOp (OGetAttr (nat_of_int (intern nm)), [a])
   | "X" -> let which = next () in let n = int_of_string (next ()) in
            let rec go i = if i = 0 then [] else let e = p_expr () in e :: go (i - 1) in
@@ -159,6 +161,9 @@ and pop (o : op) (args : val0 list) : string =
   let plain nm = nm ^ "(" ^ String.concat "," (List.map pv args) ^ ")" in
   match o with
   | OGetItem -> plain "getitem" | OSetItem -> plain "setitem" | ODelItem -> plain "delitem"
+  | OGetSlice -> (match args with
+                  | [a; lo; hi] -> "getitem(" ^ pv a ^ ",slice(" ^ pv lo ^ "," ^ pv hi ^ ",None))"
+                  | _ -> plain "getslice")
   | OGetAttr a -> plain ("getattr_" ^ name_of (int_of_nat a))
   | OSetAttr a -> plain ("setattr_" ^ name_of (int_of_nat a))
   | ODelAttr a -> plain ("delattr_" ^ name_of (int_of_nat a))
